@@ -25,7 +25,7 @@ for d in sorted(glob.glob(os.path.join(HERE, "seeded", "S*"))):
     meta["detected_by"] = det
     meta["ran"] = "tools/run_seed.sh: git -C /repo apply patch.diff; ./check <prop> --tier quick; git -C /repo checkout -- ."
     json.dump(meta, open(mp, "w"), indent=1)
-    fmt = lambda dd: "; ".join("%s: %s%s" % (x["check"], x["verdict"].split(" (")[0], (" via " + ", ".join(x["harnesses"][:3])) if x["harnesses"] else "") for x in dd) or "(not run yet)"
+    fmt = lambda dd: "; ".join("%s: %s%s" % (x["check"], x["verdict"].split(" (")[0], (" via " + ", ".join(x.get("harnesses", [])[:3])) if x.get("harnesses") else "") for x in dd) or "(not run yet)"
     v = fmt(det)
     f = fmt(meta["first_run"])
     rows.append("| %s | %s | %s | %s | %s |" % (sid, meta["breaks_property"], meta["needs_to_manifest"][:150], f if f != v else "=", v))
